@@ -21,6 +21,27 @@ claim("C09", "proof",
       "Trusted: as C06; the closed form divides[-1] == total length is an instance of the fold lemma.",
       "contract-based deductive verification (AST->VC, cvc5/z3) + bounded run-time contract checking", "DESIGN 9/C09")
 
+claim("C13", "proof",
+      "Frame/ownership condition decided statically on the AST of every function of formatstring.py (no attribute store outside "
+      "__init__/memo slots, every in-place list/dict operation on a fresh local, no function returns an operand-owned list, "
+      "FrozenAttributes seals every dict mutator, constructors copy), plus memo-coherence contracts on the real __len__, s, width, "
+      "__str__ proved under MemoInv for hit and miss; bounded stand-in: random straight-line programs with snapshots.",
+      "Trusted: the may-alias analysis is flow-insensitive and takes calls to return new objects (function-return aliasing checked); "
+      "parse_args' keyword dict is the documented exception; private fields are not written from outside the module.",
+      "static frame analysis + contract-based deductive verification of the memoising methods + random-program bounded checking", "DESIGN 9/C13")
+claim("C18", "exploration",
+      "Movement conservation of _get_cursor_vertical_diff_once and get_cursor_vertical_diff (incl. the nested-call shape) is proved "
+      "from contracts over a ghost 'reported row / moved' state (all obligations discharged); the report parse of get_cursor_position "
+      "is regex-driven and decided by an exhaustive bounded suite over scripted streams only.",
+      "Assumed: get_cursor_position returns the reported (row, col); nested calls arrive only inside the query; bounds in evidence.rule.",
+      "contract-based deductive verification (integer bookkeeping) + exhaustive bounded checking of the regex parse", "DESIGN 9/C18")
+claim("C10", "exploration",
+      "interval_overlap, Chunk.width, FmtStr.width (memo) and width_at_offset are proved against contracts over an assumed wcswidth; "
+      "the column cutter and the run walk of width_aware_slice are decided by an exhaustive bounded suite against a column model "
+      "(strings <=4 over narrow/wide/combining x all 3-run layouts x all ranges).",
+      "Assumed contract of cwcwidth (probed); cutter and run walk not under deductive contract (stated bound).",
+      "contract-based deductive verification (width functions) + exhaustive bounded checking against a column model", "DESIGN 9/C10")
+
 ALL = [f"C{i:02d}" for i in range(1, 21)]
 NA_REASON = "check not built yet in this session (work in progress; see DESIGN.md section 9 for the plan)"
 m = dict(version=1, setup_cmd="bin/setup",
